@@ -69,7 +69,7 @@ LOOP_BASE = dict(FixedFiles='{"F"}', VarFiles='{"V"}', Slots='{1,2}', MaxReq=2, 
 def model_check_loop(res, tier, invs, power):
     consts = dict(LOOP_BASE)
     r = vlib.run_tlc("Wal", "loop_kill.cfg", cfg_text=vlib.cfg_text(consts, invariants=invs, view="View", properties=["TgMonotone", "TruncateSafe"]),
-                     timeout=2400, heap="16g")
+                     timeout=4800, heap="16g", coverage=(tier != "quick"))
     vlib.tlc_ok(r, "loop_kill")
     res.tlc(r, "Wal/loop_kill")
     if r["violated"]:
